@@ -148,6 +148,7 @@ section C18  -- configuration independence
 #check @C01.tree_perm
 #check @C18b.readObjectC_refines
 #check @C18b.readObjectC_independent
+#check @C15c.stageAll_perm
 end C18
 section C19  -- canonical revision identifiers
 #check @C19.parse_render
